@@ -220,6 +220,8 @@ class Parser:
                 # the previous token (nothing for the first token of the input)
                 value_stack = ip.parser_state.value_stack
                 previous = value_stack[-1] if value_stack else None
+                # keywords can be written in any letter case
+                previous = previous.upper() if isinstance(previous, str) else None
                 if t.type == "UNQUOTED_STRING":
                     # Unquoted strings after SYMBOL can only be values, not attributes
                     if (
